@@ -86,7 +86,7 @@ for r in res:
     if added:
         ADDED[cid] = added
     keep.sort(key=len)
-    prio = [x for x in EXTRA.get(cid, []) if x in keep]          # the hand-written corner shapes are always kept
+    prio = list(EXTRA.get(cid, []))          # the hand-written corner shapes are always kept, also those the codemod declines or fails on today
     seeds[cid] = prio + [x for x in keep if x not in prio][: max(0, 14 - len(prio))]
     print(f"{cid}: {len(h[cid])} harvested, {len(keep)} changing, rc={rc}")
 (V / "harness" / "corpus" / "seeds.json").write_text(json.dumps(seeds, indent=0, sort_keys=True))
